@@ -16,10 +16,15 @@ A token is the text written into the file; its value is float(token), NaN when t
 from __future__ import annotations
 
 import math
+import re
 from pathlib import Path
 
 VENDORS = ["nu", "ldr", "tofwerk", "generic"]
 ZONES = ["UTC", "Europe/Berlin", "America/New_York", "Australia/Lord_Howe", "Asia/Kolkata"]
+# further zones of the random generator: quarter-hour offsets, the extreme offsets, a southern-hemisphere DST rule,
+# a zone whose DST shift is at midnight, POSIX TZ strings (fixed offset; DST rule without a tz database entry)
+MORE_ZONES = ["Asia/Kathmandu", "Pacific/Chatham", "America/St_Johns", "Pacific/Kiritimati", "Etc/GMT+12", "America/Santiago",
+              "Africa/Cairo", "<+0330>-3:30", "EST5EDT,M3.2.0,M11.1.0"]
 
 # local wall-clock DST transitions: (zone, date, kind, start minute of day, length in minutes)
 TRANSITIONS = [
@@ -29,6 +34,17 @@ TRANSITIONS = [
     ("America/New_York", "2021.11.07", "overlap", 60, 60),
     ("Australia/Lord_Howe", "2021.10.03", "gap", 120, 30),
     ("Australia/Lord_Howe", "2021.04.04", "overlap", 90, 30),
+]
+
+# transitions of the further zones (random generator only; the targeted sweeps use TRANSITIONS)
+MORE_TRANSITIONS = [
+    ("Pacific/Chatham", "2021.09.26", "gap", 165, 60),
+    ("Pacific/Chatham", "2021.04.04", "overlap", 165, 60),
+    ("America/Santiago", "2021.09.05", "gap", 0, 60),
+    ("America/St_Johns", "2021.03.14", "gap", 120, 60),
+    ("America/St_Johns", "2021.11.07", "overlap", 60, 60),
+    ("Africa/Cairo", "2023.04.28", "gap", 0, 60),
+    ("EST5EDT,M3.2.0,M11.1.0", "2021.03.14", "gap", 120, 60),
 ]
 
 NU_HEADER = [
@@ -91,6 +107,10 @@ def data_token(rng) -> str:
         return rng.choice(["-0.5", "-12", "-3.25e-3", "1E3", "2.5e+02", "+7", "0", "0.0", "1e-300", "-1.5E-7"])
     if k < 0.9:
         return rng.choice(["nan", "", "NaN"])
+    if k < 0.93:  # negative zero, 17 significant digits, subnormal / largest exponents, padded forms
+        return rng.choice(["-0.0", "-0", "-0e0", "-0.000", "0.1000000000000000055511151231257827", "1.7976931348623157e308",
+                           "5e-324", "2.2250738585072014e-308", "0.30000000000000004", "9007199254740993", "123456789.12345678",
+                           "1.0000000000000002", "00012", "1.", ".5", "-.5e1", "1e0", "4.9406564584124654e-324"])
     return repr(rng.random())
 
 
@@ -107,8 +127,18 @@ def indices(rng, n):
         base = [9, 10, 11, 100]
         rng.shuffle(pool)
         idx = (base + [p for p in pool if p not in base])[:n] if n >= 2 else [rng.choice(base)]
-    else:
+        idx += rng.sample(range(102, 999), n - len(idx))
+    elif rng.random() < 0.75:
         idx = rng.sample(range(0, 1200), n)
+    else:  # five and more digits (beyond \d{1,4}, int32, the exact range of float64), large gaps
+        big = [10000, 9999, 99999, 100000, 12345, 123456, 2147483647, 2147483648, 4294967296, 9007199254740993,
+               9007199254740992, 18446744073709551616, 99999999999999999999, 100000000000000000000, 7, 10, 0]
+        idx = rng.sample(big, min(n, len(big)))
+        idx += rng.sample(range(20000, 90000), n - len(idx))
+        if n >= 2 and rng.random() < 0.6:  # neighbours that a float64 / int64 key cannot tell apart
+            x = rng.choice([2 ** 53, 2 ** 63 - 1, 2 ** 64, 10 ** 17, 10 ** 20, 2 ** 53 + 2])
+            if x not in idx[2:] and x + 1 not in idx[2:]:
+                idx[0], idx[1] = x + 1, x
     return idx
 
 
@@ -133,9 +163,9 @@ def tofwerk_stamps(rng, n, tz):
         if s not in out:
             out.append(s)
 
-    trans = [t for t in TRANSITIONS if t[0] == tz]
+    trans = [t for t in TRANSITIONS + MORE_TRANSITIONS if t[0] == tz]
     if (trans and rng.random() < 0.85) or (not trans and rng.random() < 0.3):
-        zone, date, kind, start, length = rng.choice(trans or TRANSITIONS)
+        zone, date, kind, start, length = rng.choice(trans or TRANSITIONS + MORE_TRANSITIONS)
         a = start * 60 + rng.randrange(1, length * 60)
         add(stamp(date, a))
         if n >= 2:  # later on the wall clock, but earlier than a + shift
@@ -144,9 +174,16 @@ def tofwerk_stamps(rng, n, tz):
             add(stamp(date, rng.randrange(max(0, (start - 90) * 60), (start + length + 90) * 60)))
         return out, ["dst-" + kind]
     if n >= 2 and rng.random() < 0.3:
+        # year / month / leap-day ends, 2100 (no leap year), the end of 32-bit time, before the epoch
         for s in rng.choice([[("2020.12.31", 86399), ("2021.01.01", 0)], [("2020.02.29", 43200), ("2020.03.01", 1)],
-                             [("2021.09.30", 86399), ("2021.10.01", 0)]]):
+                             [("2021.09.30", 86399), ("2021.10.01", 0)], [("2021.12.31", 86375), ("2022.01.01", 40)],
+                             [("2024.02.28", 86399), ("2024.02.29", 0)], [("2100.02.28", 86399), ("2100.03.01", 0)],
+                             [("2038.01.19", 11647), ("2038.01.19", 11648)], [("1969.12.31", 86399), ("1970.01.01", 0)],
+                             [("2021.01.31", 3600), ("2021.02.01", 60)], [("1999.12.31", 86399), ("2000.01.01", 0)]]):
             add(stamp(*s))
+        f_year = ["date-rollover"]
+    else:
+        f_year = []
     style = rng.random()
     while len(out) < n:
         if style < 0.5:  # one day, seconds to hours apart
@@ -154,7 +191,7 @@ def tofwerk_stamps(rng, n, tz):
         else:  # across days, months, years
             y, m, dd = rng.choice([2019, 2020, 2021, 2024]), rng.randint(1, 12), rng.randint(1, 28)
             add(stamp(f"{y:04d}.{m:02d}.{dd:02d}", rng.randrange(86400)))
-    return out, ["plain-stamps"]
+    return out, ["plain-stamps"] + f_year
 
 
 def pad_style(rng, feats):
@@ -191,6 +228,9 @@ def ldr_samples(rng, n, feats):
     return own
 
 
+_VENDOR_LIKE = re.compile(r"line_\d+\.csv|\w*_ldr_\d+\.csv|\w+?([0-9.]+-\d\dh\d\dm\d\ds).*\.csv", re.IGNORECASE)
+
+
 def line_names(rng, vendor, n, tz):
     feats = []
     if vendor in ("nu", "ldr"):
@@ -199,6 +239,8 @@ def line_names(rng, vendor, n, tz):
         digits = [fmt(i) for i in idx]
         if sorted(range(n), key=lambda k: idx[k]) != sorted(range(n), key=lambda k: digits[k]):
             feats.append("lex!=num")
+        if any(i >= 10000 for i in idx):
+            feats.append("index>=5digits")
         if vendor == "nu":
             names = [case_mix(rng, "line_") + d + case_mix(rng, ".csv") for d in digits]
         else:
@@ -241,9 +283,31 @@ def line_names(rng, vendor, n, tz):
     # generic: plain name order (code points): digits < upper < lower, "10" < "9"
     pool = ["1.csv", "2.csv", "10.csv", "9.csv", "11.csv", "100.csv", "a.csv", "B.csv", "b.csv", "Z.csv", "_x.csv",
             "scan 1.csv", "scan 10.csv", "scan 2.csv", "data.CSV", "data.csv.bak", "ab.csv", "a.b.csv", "A.csv", "0.csv"]
-    names = rng.sample(pool, n)
+    if rng.random() < 0.5:
+        names = rng.sample(pool, n)
+    else:
+        # one stem and continuations of it: the order of the NAMES ("scan-2.csv" < "scan.csv": '-' < '.') is not the order
+        # of the stems ("scan" < "scan-2"), nor of the lower-cased names, nor of the names without their extension
+        st = rng.choice(["scan", "img1", "1", "a", "Line", "x_y", "run 3", "d.e"])
+        conts = ["", "-2", " (2)", ".5", "_1", "0", "1", "-10", "+", ",b", "A", "a", "~", "!", "#1", ".csv", "..", " ", "-", "$", "&c", "(", "=", "@2", "[1]", "^", "{", "\u00e9"[:0] + "z"]
+        exts = [".csv"] * 4 + [".CSV", ".Csv", ".csv.bak", ".csv.CSV"]
+        names = []
+        for c in rng.sample(conts, min(n, len(conts))):
+            names.append(st + c + rng.choice(exts))
+        while len(names) < n:
+            nm = rng.choice(pool)
+            if nm not in names:
+                names.append(nm)
+        if len({nm.lower() for nm in names}) < n or any(_VENDOR_LIKE.match(nm) for nm in names):
+            names = rng.sample(pool, n)  # (a generic directory with a name a vendor pattern accepts is that vendor's for auto-detection)
+        else:
+            feats.append("generic-continuations")
     if sorted(names) != sorted(names, key=lambda s: (len(s), s)):
         feats.append("lex!=num")
+    if sorted(names) != sorted(names, key=lambda s: s.rsplit(".", 1)[0]):
+        feats.append("name-order!=stem-order")
+    if sorted(names) != sorted(names, key=lambda s: (s.lower(), s)):
+        feats.append("name-order!=caseless-order")
     return names, names, feats
 
 
@@ -453,7 +517,11 @@ HISTORY_RATE = 0.4  # of the cases with an explicit option object
 def generate(rng, tier):
     vendor = rng.choice(VENDORS + ["tofwerk"])
     n = rng.choice([1, 2, 2, 3, 4, 4, 5, 6, 8])
+    if rng.random() < 0.03:
+        n = rng.choice([12, 16])
     tz = rng.choice(ZONES + (["Europe/Berlin", "America/New_York", "Australia/Lord_Howe"] if vendor == "tofwerk" else []))
+    if rng.random() < 0.25:
+        tz = rng.choice(MORE_ZONES)
     auto = rng.random() < 0.4
     names, _, f1 = line_names(rng, vendor, n, tz)
     tables, f2 = make_tables(rng, vendor, n)
@@ -467,7 +535,224 @@ def generate(rng, tier):
     rng.shuffle(pi)
     case = {"kind": "load", "vendor": vendor, "auto": auto, "tz": tz, "pi": pi, "entries": entries,
             "gen_features": sorted(set(f1 + f2 + f3))}
+    if n >= 12:
+        case["gen_features"].append("n>=12")
+    k = rng.random()
+    if k < 0.12:
+        case["path_as"] = rng.choice(["str", "str/"])
+    if rng.random() < 0.12:
+        case["dirname"] = rng.choice(["run 1", "scan.csv", ".hidden", "line_5.csv", "s_ldr_7.csv", "IMG_2021.01.01-10h10m10s.csv",
+                                      "2021.03.28", "a.b", "UPPER", "x" * 40])
     # drawn after everything else: the single-call case is the one the generator gave before histories existed
     if not auto and rng.random() < HISTORY_RATE:
         add_history(rng, case)
     return case
+
+
+# ----------------------------------------------------------------------------- histories, every import judged
+# {"kind": "history", "tz": zone, "steps": [step, ...]}; a step is one call of pewlib.io.csv.load:
+#   "slot":  "lines" | "b"      the directory PATH the call imports (two paths; "lines" is the path every case of the worker uses)
+#   "dir":   {"vendor", "entries"}  optional: the directory at that path is emptied and written anew before the call
+#                                   (absent: the directory is left as the previous step left it)
+#   "mtime": "natural" | "kept"   kept: the modification times of the directory and of every file in it are set to one fixed
+#                                   instant after writing (a result remembered per (path, mtime) looks still valid)
+#   "call":  "auto"               load(path, full=True)                      - option_for_path / module-level defaults
+#            "detected"           load(path, option=option_for_path(path), full=True)
+#            "shared"             load(path, option=o, full=True), o the history's one instance of the vendor's option class
+#            "fresh"              load(path, option=<new instance>, full=True)
+#            "auto-nofull"        load(path)   - not an observation point of the property: result ignored, never judged
+#   "pi":    completion order of the reader tasks
+#   "edits": what the caller does with the objects the call returned before the next call:
+#            "image" (every field of the returned array overwritten in place), "params" (the returned dict emptied and
+#            refilled), "own-option" (attributes of the caller's own option instance of this call changed; the instance is
+#            never passed again), "library-option" (attributes of the object option_for_path(path) returns changed)
+# Every call except "auto-nofull" is judged against the Lean specification of the directory as it is on disk at that call.
+HELPERS = {"nu": ["Cycle_time_(ms)", "x_[um]", "y_[um]"], "ldr": ["Time"], "tofwerk": ["t_elapsed_Buf"], "generic": []}
+_BAD_STAMP = {"invalid-stamp", "leap-second-stamp", "short-date-fields"}
+
+
+def make_dir(rng, vendor, tz, n=None, names=None, elements=None, nancols=None, with_distractors=True):
+    """one directory of the layout (in-domain stamps only): ({"vendor", "entries"}, features)"""
+    n = len(names) if names is not None else (n or rng.choice([1, 2, 2, 3, 4]))
+    feats = []
+    if names is None:
+        names, _, feats = line_names(rng, vendor, n, tz)
+        while _BAD_STAMP & set(feats):
+            names, _, feats = line_names(rng, vendor, n, tz)
+    if vendor == "ldr" and elements is not None and nancols and len(set(nancols)) >= len(elements):
+        # LDR drops columns that are empty everywhere: at least one element keeps its data (an image without any element
+        # is outside the property)
+        if len(elements) == 1:
+            elements = list(elements) + [next(e for e in ELEMENTS if e not in elements)]
+        nancols = sorted(set(nancols))[:len(elements) - 1]
+    tables, f2 = make_tables(rng, vendor, n, elements=elements, nancols=nancols)
+    entries = [{"name": nm, "type": "file", "role": "line", "eol": "\n", **t} for nm, t in zip(names, tables)]
+    if with_distractors and rng.random() < 0.4:
+        ds, f3 = distractors(rng, vendor, True, set(names))
+        entries += ds
+        feats = feats + f3
+    rng.shuffle(entries)
+    return {"vendor": vendor, "entries": entries}, feats + f2
+
+
+def dir_elements(d):
+    lines = [e for e in d["entries"] if e["role"] == "line"]
+    hs = set(HELPERS[d["vendor"]]) | {"f0"}
+    return [nm for nm in (lines[0]["names"] if lines else []) if nm not in hs]
+
+
+def derive_dir(rng, prev, tz):
+    """the directory written over `prev` (same path): same names / other header, same names / other values, other line
+    count, or another vendor's layout"""
+    vendor = prev["vendor"]
+    pnames = [e["name"] for e in prev["entries"] if e["role"] == "line"]
+    pel = dir_elements(prev)
+    k = rng.random()
+
+    def overlapping():
+        el = [e for e in pel if rng.random() < 0.7] or pel[:1]
+        el = el + rng.sample([e for e in ELEMENTS if e not in pel], rng.choice([0, 1, 2]))
+        rng.shuffle(el)
+        return el or rng.sample(ELEMENTS, 2)
+
+    def nan_some(el):
+        return rng.sample(range(len(el)), rng.randint(1, len(el))) if rng.random() < 0.35 else []
+
+    if k < 0.3 and pnames:  # the same file names, another header (elements dropped / added / reordered)
+        el = overlapping()
+        if sorted(el) == sorted(pel) and len(el) > 1:
+            el = el[1:] + el[:1]
+        d, f = make_dir(rng, vendor, tz, names=list(pnames), elements=el, nancols=nan_some(el))
+        return d, f, ["hist:same-names-other-header"]
+    if k < 0.45 and pnames:  # the same file names and header, other values and line lengths
+        d, f = make_dir(rng, vendor, tz, names=list(pnames), elements=list(pel) or None, nancols=[])
+        return d, f, ["hist:same-names-other-values"]
+    if k < 0.65:  # the same layout, other files (line count, names), overlapping elements
+        n = rng.choice([x for x in (1, 2, 3, 4, 5) if x != len(pnames)])
+        el = overlapping() if pel else None
+        d, f = make_dir(rng, vendor, tz, n=n, elements=el, nancols=nan_some(el) if el else None)
+        return d, f, ["hist:other-line-count"]
+    v2 = rng.choice([v for v in VENDORS if v != vendor])
+    el = overlapping() if (pel and rng.random() < 0.5) else None
+    d, f = make_dir(rng, v2, tz, elements=el, nancols=nan_some(el) if el else None)
+    return d, f, ["hist:other-vendor"]
+
+
+def gen_history(rng, tier):
+    tz = rng.choice(ZONES)
+    nsteps = rng.choice([2, 2, 3, 3, 4])
+    theme = rng.choice(["auto", "auto", "mixed", "mixed", "explicit"])
+    content, steps, feats = {}, [], set()
+    first_vendor = rng.choice(VENDORS + ["ldr"])
+    for i in range(nsteps):
+        slot = "lines" if (i == 0 or rng.random() < 0.75) else "b"
+        step = {"slot": slot}
+        prev = content.get(slot)
+        if prev is not None and rng.random() < 0.2:
+            feats.add("hist:unchanged-reimport")
+        else:
+            if prev is not None:
+                d, f, hf = derive_dir(rng, prev, tz)
+                hf = [h.replace("hist:", "hist:same-path:") for h in hf]
+            elif content:  # a second path: related to what was imported from the first one
+                d, f, hf = derive_dir(rng, rng.choice(list(content.values())), tz)
+                hf = [h.replace("hist:", "hist:other-path:") for h in hf]
+            else:
+                nan = None
+                d, f = make_dir(rng, first_vendor, tz)
+                el = dir_elements(d)
+                if rng.random() < 0.4 and el:  # an element column empty in every line of the FIRST directory
+                    d, f = make_dir(rng, first_vendor, tz, elements=el, nancols=rng.sample(range(len(el)), rng.randint(1, len(el))))
+                hf = []
+            step["dir"] = d
+            step["mtime"] = "kept" if rng.random() < 0.5 else "natural"
+            content[slot] = d
+            feats.update(hf)
+            feats.update(x for x in f if x in ("all-nan-element", "index>=5digits", "generic-continuations"))
+            if step["mtime"] == "kept" and prev is not None:
+                feats.add("hist:rewritten-mtime-kept")
+        cur = content[slot]
+        n = sum(e["role"] == "line" for e in cur["entries"])
+        k = rng.random()
+        if theme == "auto":
+            call = "auto" if k < 0.8 else "detected" if k < 0.93 else "auto-nofull"
+        elif theme == "explicit":
+            call = "shared" if k < 0.7 else "fresh"
+        else:
+            call = rng.choice(["auto", "auto", "detected", "shared", "shared", "fresh", "auto-nofull"])
+        if call == "auto-nofull" and i == nsteps - 1:
+            call = "auto"
+        step["call"] = call
+        pi = list(range(n))
+        rng.shuffle(pi)
+        step["pi"] = pi
+        edits = []
+        if i < nsteps - 1 and call != "auto-nofull":
+            if rng.random() < 0.3:
+                edits.append("image")
+            if rng.random() < 0.25:
+                edits.append("params")
+            if rng.random() < 0.3:
+                edits.append("own-option" if call in ("shared", "fresh") else "library-option")
+        step["edits"] = edits
+        steps.append(step)
+    return {"kind": "history", "tz": tz, "steps": steps, "gen_features": sorted(feats)}
+
+
+def targeted_histories():
+    """deterministic histories: every class of state that could be left between two calls, for every layout"""
+    import random
+
+    def step(slot, d, call, mtime="kept", edits=(), seed=0):
+        n = sum(e["role"] == "line" for e in d["entries"]) if d else 0
+        st = {"slot": slot, "call": call, "pi": list(reversed(range(n))), "edits": list(edits)}
+        if d is not None:
+            st["dir"], st["mtime"] = d, mtime
+        return st
+
+    def hist(steps, feats):
+        for st, prev in zip(steps, [None] + steps):  # "pi" of a step without "dir": the directory of the step before
+            if "dir" not in st and prev is not None:
+                st["pi"] = list(prev["pi"])
+        return {"kind": "history", "tz": "UTC", "steps": steps, "gen_features": sorted(feats)}
+
+    for v1 in VENDORS:
+        rng = random.Random(f"C04-th-{v1}")
+        d1, _ = make_dir(rng, v1, "UTC", n=3)
+        el = dir_elements(d1)
+        names = [e["name"] for e in d1["entries"] if e["role"] == "line"]
+        # the same path rewritten in every other layout, module-level defaults only (no option passed)
+        for v2 in VENDORS:
+            if v2 != v1:
+                d2, _ = make_dir(rng, v2, "UTC", n=2, elements=el[:1] + ["Zn66"])
+                for mt in ("kept", "natural"):
+                    yield hist([step("lines", d1, "auto", mt), step("lines", d2, "auto", mt)],
+                               ["hist:same-path:other-vendor", "targeted-history"])
+        # the same file names: another header; the same header with other values and lengths; one line more
+        el2 = (el[1:] + ["Ca44"]) if len(el) > 1 else ["Ca44"] + el
+        d3, _ = make_dir(rng, v1, "UTC", names=list(names), elements=el2, nancols=[])
+        d4, _ = make_dir(rng, v1, "UTC", names=list(names), elements=list(el), nancols=[])
+        d5, _ = make_dir(rng, v1, "UTC", n=4, elements=list(el), nancols=[])
+        for call in ("auto", "shared", "detected"):
+            yield hist([step("lines", d1, call), step("lines", d3, call), step("lines", d4, call), step("lines", d5, call)],
+                       ["hist:same-path:same-names-other-header", "hist:same-path:same-names-other-values",
+                        "hist:same-path:other-line-count", "targeted-history"])
+        # the directory left as it is, the caller edits what the first call returned
+        yield hist([step("lines", d1, "auto", edits=["image", "params"]), step("lines", None, "auto"),
+                    step("lines", None, "shared", edits=["image", "params"]), step("lines", None, "shared")],
+                   ["hist:unchanged-reimport", "targeted-history"])
+        # the caller edits its own option instance, later calls use other instances / none
+        yield hist([step("lines", d1, "fresh", edits=["own-option"]), step("lines", None, "fresh"), step("b", d3, "auto"),
+                    step("b", None, "shared", edits=["own-option"]), step("lines", None, "shared")],
+                   ["targeted-history"])
+        # the caller edits the object option_for_path returned (recorded only when a later call sees it)
+        yield hist([step("lines", d1, "detected", edits=["library-option"]), step("lines", None, "auto"), step("b", d3, "detected")],
+                   ["targeted-history"])
+        # an element column empty in every line, then the same element with data (and the other way round)
+        if el:
+            el6 = list(el) if len(el) >= 2 else list(el) + [next(e for e in ELEMENTS if e not in el)]
+            d6, _ = make_dir(rng, v1, "UTC", n=2, elements=el6, nancols=list(range(len(el6) - 1)))
+            d7, _ = make_dir(rng, v1, "UTC", n=2, elements=el6, nancols=[])
+            for call in ("auto", "shared", "detected", "fresh"):
+                yield hist([step("lines", d6, call), step("b", d7, call), step("lines", None, call)],
+                           ["hist:nan-element-then-data", "targeted-history"])
